@@ -336,3 +336,23 @@ pub fn co_qual(g: &Goal, co_cycle: bool) -> &'static str {
         ":coinductive-cycle"
     }
 }
+
+/// Qualifier for failures on fresh solvers, from the reference derivation of the goal: the recorded SLG finding needs
+/// nested / overlapping coinductive cycles (a strongly connected component that is more than one simple cycle); a failure
+/// on a goal whose only coinductive cycles are simple gets its own class, which no known finding lists.
+pub fn co_qual_st(g: &Goal, st: &crate::refsem::EvalStats, open_goal_on_cyclic_program: bool) -> &'static str {
+    if st.co_cycle {
+        // negation over a coinductive cycle is the other recorded SLG root cause (negative literal on a table whose
+        // answer keeps delayed subgoals); any cycle will do there
+        let has_not = g.body.iter().any(|l| matches!(l, Lit::Not(_)));
+        if st.co_cycle_complex || has_not {
+            co_qual(g, true)
+        } else {
+            ":coinductive-simple-cycle"
+        }
+    } else if open_goal_on_cyclic_program {
+        co_qual(g, true)
+    } else {
+        ""
+    }
+}
